@@ -471,6 +471,12 @@ pub(super) struct Stats {
     pub(super) rig_anomalies: u64,
 }
 
+/// A report for an id that is not live lies outside the system task's environment (every source task reports at
+/// most once — c11_task). `false`: its outcome (ignored / the system task aborts) is recorded, only side effects are
+/// judged. `true`: the abort itself is the violation `…:system-stale-report-aborts` (then HEAD needs
+/// proposed_fixes/C36-system-stale-report-hardening.diff). See notes/gt.md.
+pub(super) const STALE_REPORT_ABORT_IS_VIOLATION: bool = false;
+
 /// Judge one run step by step; stops at the first finding (the model has diverged then).
 pub(super) fn judge(evs: &[Ev], run: &RunObs) -> (Option<Finding>, Stats, Model) {
     let mut st = Stats::default();
@@ -516,9 +522,12 @@ pub(super) fn judge(evs: &[Ev], run: &RunObs) -> (Option<Finding>, Stats, Model)
             match &obs.outcome {
                 Outcome::Ok => st.stale_ignored_ok += 1,
                 Outcome::Err(_) => st.stale_ignored_err += 1,
-                Outcome::Panic(_) => {
+                Outcome::Panic(p) => {
                     st.stale_abort += 1;
                     st.events_not_run_after_abort += (evs.len() - i - 1) as u64;
+                    if STALE_REPORT_ABORT_IS_VIOLATION {
+                        return fail("stale-report-aborts", format!("{ev:?} for a source that is not live panicked: {p}"), i, st, m);
+                    }
                     return (None, st, m);
                 }
             }
